@@ -218,9 +218,17 @@ func minimize(prob *Problem, method Method, settings *Settings, converger Conver
 		nTasks = 1
 	}
 	has := availFromProblem(*prob)
-	_, initErr := method.Uses(has)
+	uses, initErr := method.Uses(has)
 	if initErr != nil {
 		panic(fmt.Sprintf("optimize: specified method inconsistent with Problem: %v", initErr))
+	}
+	if !uses.Grad {
+		// A gradient supplied in InitValues would stay attached to the
+		// location the method keeps announcing and be tested against
+		// GradientThreshold at every major iteration although the method
+		// never updates it.
+		initLoc.Gradient = nil
+		initOp &^= GradEvaluation
 	}
 	newNTasks := method.Init(dim, nTasks)
 	if newNTasks > nTasks {
